@@ -20,7 +20,7 @@ class Launch(pipeline.Module):
     ]
 
     def gen_configs(self, prop, tier, sd):
-        return [(m, '  Mode = "%s"' % m) for m in ("dirs", "dropins")]
+        return [(m, '  Mode = "%s"' % m) for m in ("dirs", "dropins", "more")]
 
     def replay(self, exe, prop, tier, sd, scen, trace, sc):
         probe = sc.path("probe")
